@@ -118,6 +118,10 @@ class _SdeintAdjointMethod(torch.autograd.Function):
                 aug_state = misc.flatten(aug_state)
                 aug_state = aug_state.unsqueeze(0)  # dummy batch dimension
 
+        if ys.size(0) == 1:
+            # A single output time: there is no interval to solve the adjoint over, and the augmented state is still flat.
+            aug_state = misc.flat_to_shape(aug_state.squeeze(0), shapes)
+
         if ctx.saved_extras_for_backward:
             out = aug_state[1:]
         else:
